@@ -791,10 +791,12 @@ class PolarGrid2D(Grid2D):
             dims, cell_size, cell_location,\
                   face_location, corners, edges= args
         else:
+            theta_max = 0.0
             if len(args) == 2:
                 theta_max = args[1][-1]
-            else:
+            elif len(args) == 4:
                 theta_max = args[3]
+            # any other number of arguments: TypeError from _mesh_2d_param below
             if (theta_max > 2*np.pi):
                 warn("Recreate the mesh with an upper bound of 2*pi for \\theta or there will be unknown consequences!")
             dims, cell_size, cell_location, face_location, corners, edges\
@@ -1087,10 +1089,12 @@ class CylindricalGrid3D(Grid3D):
             dims, cell_size, cell_location, face_location, corners, edges\
                 = args
         else:
+            theta_max = 0.0
             if len(args) == 3:
                 theta_max = args[1][-1]
-            else:
+            elif len(args) == 6:
                 theta_max = args[4]
+            # any other number of arguments: TypeError from _mesh_3d_param below
             if theta_max > 2*np.pi:
                 warn("Recreate the mesh with an upper bound of 2*pi for theta or there will be unknown consequences!")
 
@@ -1207,6 +1211,9 @@ class SphericalGrid3D(Grid3D):
             dims, cell_size, cell_location, face_location, corners, edges\
                 = args
         else:
+            theta_max = 0.0
+            phi_max = 0.0
+            # any number of arguments other than 3 or 6: TypeError from _mesh_3d_param below
             if len(args) == 3:
                 theta_max = args[1][-1]
                 phi_max = args[2][-1]
